@@ -17,6 +17,12 @@ type Storage interface {
 	SetTableMeta(tbl *btapb.Table)
 }
 
+// tableDeleter is implemented by storage layers that keep tables beyond the life of the process.
+type tableDeleter interface {
+	// DeleteTable removes everything persisted for the table.
+	DeleteTable(tbl *btapb.Table)
+}
+
 type keyType = []byte
 
 // Rows implements storage algorithms per table.
